@@ -1,7 +1,7 @@
 (* C12 — OpenID tokens go only to the right client and name the right user.
    Model: Model/OIDC.v authorize / token_endpoint / exec / valid, Model/Tokens.v c_userinfo. *)
 From Coq Require Import String ZArith NArith List Bool.
-From KM Require Import Base.Bytes Model.Tokens Model.OIDC Proofs.Tokens Proofs.OIDC.
+From KM Require Import Base.Bytes Model.Tokens Model.OIDC Proofs.Tokens Proofs.OIDC Proofs.OIDCKeys.
 Import ListNotations.
 Open Scope Z_scope.
 
@@ -73,10 +73,139 @@ Proof.
   destruct (c_userinfo (srv i) now (emit (srv i) t_issue a)); [discriminate M|reflexivity].
 Qed.
 
-(* ---------------------------------------------------------------- non-vacuity: both flows release *)
+(* the configuration of the witnesses below: client A with a secret, client B secret-less, RSA signer *)
 Definition idp0 : idp :=
   {| srv := srv0; clients := [ {| cl_id := b "clientA"; cl_secret := b "secretA" |};
                                {| cl_id := b "clientB"; cl_secret := [] |} ] |}.
+
+(* ---------------------------------------------------------------- redirect_uri at the token endpoint *)
+
+(* A token request whose redirect_uri is absent or empty (r.Form.Get gives "" for both) is refused
+   with 400, whoever sends it and however it authenticates - with c12_release_sound: tokens are
+   released only with a non-empty redirect URI equal to the one bound into the code. *)
+Theorem c12_redirect_required : forall i now r, tr_redirect r = [] -> token_endpoint i now r = Refuse 400.
+Proof. exact redirect_required. Qed.
+
+(* NOT the code: were redirect_uri optional for requests that carry a code_verifier, a secret-less
+   client with the right verifier would get tokens without naming the redirect URI the code is
+   bound to. *)
+Theorem c12_optional_redirect_refuted : exists i now r idt act k,
+  token_endpoint_gen true i now r = Release idt act /\ dec_code (t_claims (tr_code r)) = Some k /\
+  c_redirect k <> tr_redirect r /\ token_endpoint i now r = Refuse 400.
+Proof.
+  pose (code := p_code srv0 (1000 * NS) (b "clientB") (b "alice") (b "openid") (b "https://a.example/cb") (b "nonce123")
+                       (b "jti") (b "HASH") m_S256 []).
+  pose (r := treq_w code [] None (b "clientB") (b "verifier") (b "HASH")).
+  destruct (token_endpoint_gen true idp0 (1010 * NS) r) as [idt act|s] eqn:E; [|vm_compute in E; discriminate E].
+  exists idp0, (1010 * NS), r, idt, act. eexists. split; [exact E|].
+  split; [unfold r, treq_w, code, p_code, sign; cbn [tr_code t_claims]; apply dec_enc_code|].
+  split; [cbn; discriminate|]. vm_compute. reflexivity.
+Qed.
+
+(* ---------------------------------------------------------------- signers and the JWKS *)
+
+(* Whatever key files the daemon started with - an RSA signer of any size, a P-256, P-384 or P-521
+   signer, with or without an Ed25519 SSH CA next to it, with any list of sibling public keys -:
+   every ID token the token endpoint releases is signed by the signer with the algorithm preferred
+   for its key type, its kid names an entry of the JWKS with that key type, and it verifies under
+   the JWKS (so does the access token, and userinfo's own verification accepts it). *)
+Theorem c12_idtoken_under_jwks : forall iss ui kc keys cls now r idt act,
+  load kc = Some keys ->
+  token_endpoint {| srv := server_of iss ui keys (kc_signer kc); clients := cls |} now r = Release idt act ->
+  under_jwks (jwks_of keys) idt = true /\ under_jwks (jwks_of keys) act = true /\
+  In (t_signer idt, pk_type (kc_signer kc)) (jwks_of keys) /\
+  t_signer idt = pk_id (kc_signer kc) /\ t_alg idt = alg_of (pk_type (kc_signer kc)) /\ t_tampered idt = false /\
+  verify (server_of iss ui keys (kc_signer kc)) act = true.
+Proof. exact released_under_jwks. Qed.
+
+(* The statement's ID-token sentence in one piece, for histories of any length against a daemon started
+   with any key files the model covers: a release goes back to an earlier authorization step of user u for the
+   client that now authenticated; the ID token names this issuer, u, that client alone, echoes the nonce,
+   expires 16 h after that step, and verifies under the JWKS the daemon publishes. *)
+Theorem c12_idtoken_complete : forall iss ui kc keys cls pre now r post idt act,
+  load kc = Some keys ->
+  let i := {| srv := server_of iss ui keys (kc_signer kc); clients := cls |} in
+  valid i [] (pre ++ OToken now r :: post) -> token_endpoint i now r = Release idt act ->
+  exists t_a u a,
+    In (OAuthorize t_a u a) pre /\ authorize i t_a u a = Some (tr_code r) /\
+    fst (presented_creds r) = ar_client a /\ tr_redirect r = ar_redirect a /\ tr_redirect r <> [] /\
+    unix now <= unix t_a + 300 /\
+    dec_id (t_claims idt) = Some {| i_iss := iss; i_sub := u; i_aud := [ar_client a];
+                                    i_exp := unix t_a + 16 * 3600; i_iat := unix now; i_nonce := ar_nonce a |} /\
+    under_jwks (jwks_of keys) idt = true.
+Proof.
+  intros iss ui kc keys cls pre now r post idt act L i V R.
+  destruct (c12_idtoken _ _ _ _ _ _ _ V R) as [t_a [u [a [c [IN [A [F [_ [_ [RED [EXP [D _]]]]]]]]]]]].
+  destruct (c12_idtoken_under_jwks _ _ _ _ _ _ _ _ _ L R) as [J _].
+  exists t_a, u, a. repeat split; auto.
+  intro E. pose proof (c12_redirect_required i now r E) as X. rewrite R in X. discriminate X.
+Qed.
+
+(* The JWKS publishes every loaded key, whatever its type: the signer, the Ed25519 CA, each key of
+   the file; nothing else. *)
+Theorem c12_jwks_all_keys : forall kc keys, load kc = Some keys ->
+  In (pk_id (kc_signer kc), pk_type (kc_signer kc)) (jwks_of keys) /\
+  (forall e, kc_ed kc = Some e -> In (pk_id e, KEd25519) (jwks_of keys)) /\
+  (forall k, In k (kc_file kc) -> In (pk_id k, pk_type k) (jwks_of keys)) /\
+  length (jwks_of keys) = length keys.
+Proof.
+  intros kc keys L. apply load_sound in L. destruct L as [_ [S [E F]]].
+  split; [apply jwks_complete; exact S|]. split.
+  - intros e He. destruct (E e He) as [T I]. rewrite <- T. apply jwks_complete. exact I.
+  - split; [intros k Hk; apply jwks_complete; auto|apply jwks_length].
+Qed.
+
+(* NOT the code: a JWKS restricted to the algorithms the discovery document advertises.  The daemon
+   starts with a P-521 signer, releases an ID token signed ES512, and that token verifies under no
+   published key. *)
+Theorem c12_filtered_jwks_refuted : exists kc keys idt,
+  load kc = Some keys /\ idt_p521 = Some idt /\
+  under_jwks (jwks_of keys) idt = true /\ under_jwks (jwks_filtered keys) idt = false.
+Proof.
+  exists kc_p521, keys_p521. destruct idt_p521 as [idt|] eqn:E; [|vm_compute in E; discriminate E].
+  exists idt. split; [reflexivity|]. split; [reflexivity|].
+  vm_compute in E. inversion E. subst idt. vm_compute. split; reflexivity.
+Qed.
+
+(* id_token_signing_alg_values_supported (RS256, ES256, ES384) names the algorithm of every released
+   ID token when the signer is an RSA, P-256 or P-384 key ... *)
+Theorem c12_alg_advertised : forall iss ui kc keys cls now r idt act,
+  load kc = Some keys -> pk_type (kc_signer kc) <> KP521 ->
+  token_endpoint {| srv := server_of iss ui keys (kc_signer kc); clients := cls |} now r = Release idt act ->
+  advertised (t_alg idt) = true.
+Proof. exact released_alg_advertised. Qed.
+
+(* ... and not with a P-521 signer, which the daemon accepts: its ID tokens are signed ES512.
+   (Outside the statement of C12; recorded as an observation in docs/notes/C12.md.) *)
+Theorem c12_alg_not_advertised_p521 : exists kc keys idt,
+  load kc = Some keys /\ idt_p521 = Some idt /\ advertised (t_alg idt) = false.
+Proof.
+  exists kc_p521, keys_p521. destruct idt_p521 as [idt|] eqn:E; [|vm_compute in E; discriminate E].
+  exists idt. split; [reflexivity|]. split; [reflexivity|].
+  vm_compute in E. inversion E. reflexivity.
+Qed.
+
+(* PKCE needs RSA keys (encryptWithPublicKeys / decryptWithPublicKeys handle nothing else): a
+   challenge is sealed into a code only if some loaded key is an RSA key, and a request carrying a
+   code_verifier is served only if the signer itself is an RSA key.  With an ECDSA signer only the
+   client-secret flow releases tokens. *)
+Theorem c12_pkce_needs_rsa : forall i,
+  (forall now u a t, authorize i now u a = Some t -> ar_challenge a <> [] -> can_seal (srv i) = true) /\
+  (forall now r idt act, token_endpoint i now r = Release idt act -> tr_verifier r <> [] -> can_open (srv i) = true).
+Proof. intro i. split; [apply authorize_seal_needs_rsa|apply pkce_release_needs_rsa]. Qed.
+
+(* the access token of every release passes userinfo's audience rule: its audience list is empty or
+   ends with the userinfo URL *)
+Theorem c12_access_audience : forall i now r idt act, token_endpoint i now r = Release idt act ->
+  exists x, dec_access (t_claims act) = Some x /\ (x_aud x = [] \/ In (s_userinfo (srv i)) (x_aud x)).
+Proof.
+  intros i now r idt act R. apply token_release_sound in R.
+  destruct R as [k [c [_ [_ [_ [_ [_ [_ [_ [_ [_ ->]]]]]]]]]]].
+  eexists. split; [unfold p_access, sign; cbn [t_claims]; apply dec_enc_access|]. cbn [x_aud].
+  destruct (c_access_aud k) as [|a l]; [left; reflexivity|right]. apply in_or_app. right. left. reflexivity.
+Qed.
+
+(* ---------------------------------------------------------------- non-vacuity: both flows release *)
 
 Definition areq0 (client chal meth : bs) : areq :=
   {| ar_method_ok := true; ar_response_type := rt_code; ar_client := client; ar_scope := b "openid";
